@@ -49,7 +49,7 @@ def generate(seed, tier):
     cases = []
     k = 0
     # 1. all increasing tree shapes: every structural query, every pair; then every re-rooting
-    nmax = 6 if tier == "thorough" else 5
+    nmax = 7 if tier == "thorough" else 5
     for n in range(1, nmax + 1):
         for pv in all_parent_vectors(n):
             cases.append(["case shape%d dir" % k] + build(list(pv)) + queries_all(n, pairs=(n <= 5)))
@@ -164,8 +164,14 @@ def generate(seed, tier):
                 ops.append("t.setRoot %d" % a)
             elif r < 0.67:
                 ops.append(rng.choice(["t.makeDirected", "t.makeUndirected"]))
-            elif r < 0.70:
+            elif r < 0.685:
                 ops.append("t.link %d %d" % (a, b))
+            elif r < 0.70:
+                # the other public mutators inherited from GlobalGraph
+                ops.append(rng.choice(["t.createNodeFromNode %d" % a, "t.createNodeOnEdge %d" % rng.randint(0, 8),
+                                       "t.createNodeFromEdge %d" % rng.randint(0, 8), "t.orientate"]))
+                if ops[-1] != "t.orientate":
+                    nn = min(nn + 2, 10)
             elif r < 0.73:
                 ops.append("t.unlink %d %d" % (a, b))
             elif r < 0.88:
@@ -242,8 +248,12 @@ def dagobs_cases(rng, tier):
                 ops.append(rng.choice(["w.valid", "w.rooted"]))
             elif r < 0.86:
                 ops.append("w.qn %d" % a)
-            elif r < 0.92:
+            elif r < 0.90:
                 ops.append("w.qe %d" % rng.randrange(12))
+            elif r < 0.91:
+                ops.append("w.setRoot %d" % a)
+            elif r < 0.94:
+                ops.append("w.qi %d %d" % (a, rng.randrange(12)))
             else:
                 ops.append("w.below %d" % a)
         ops += ["w.valid", "w.rooted", "w.below %d" % rng.randrange(n)]
@@ -336,6 +346,23 @@ def dag_cases(rng, tier):
                 ops += ["d.addSon %d %d" % (b, a), "d.valid", "d.rooted", "d.removeSon %d %d" % (b, a), "d.valid"]
             cases.append(["case dagall%d dag" % k] + ops)
             k += 1
+            # closing edits over ALL ordered pairs that are not yet related (not only the reciprocal of a relation): a backward
+            # relation b -> a closes a cycle exactly when a reaches b — cycles of every length; n <= 4 every pair, beyond a sample
+            related = set(es)
+            closing = [(b, a) for a in range(n) for b in range(a + 1, n) if (a, b) not in related]
+            if n >= 3 and closing:
+                if n > 4:
+                    closing = rng.sample(closing, 1) if mask % 5 == 0 else []
+                for (b, a) in closing:
+                    ops = ["d.createNode"] * n
+                    for (x, y) in es:
+                        ops.append("d.addSon %d %d" % (x, y))
+                    if rng.random() < 0.5:
+                        ops.append("d.valid")
+                    ops += [rng.choice(["d.addSon %d %d" % (b, a), "d.addFather %d %d" % (a, b)]), "d.valid", "d.rooted", "d.leavesUnder %d" % a,
+                            "d.belowN %d" % b, "d.rootAt %d" % a, "d.valid", "d.rooted"]
+                    cases.append(["case dagclose%d dag" % k] + ops)
+                    k += 1
             if 1 <= n <= 4:
                 # every node as the new root, with the caches written before or not; the relations given either way round
                 for r in range(n):
@@ -428,7 +455,17 @@ def obs_cases(rng, tier):
                 ops.append("o.setFather %d %d %s" % (s, f, obj()))
             else:
                 ops.append("o.link %d %d %s" % (f, s, obj()))
+        # the graph's root is the first node created unless told otherwise: the tree built above hangs from perm[0]
+        if rooted:
+            if rng.random() < 0.9:
+                ops.append("o.setRoot %d" % perm[0])
+        elif rng.random() < 0.8:
+            ops += ["o.valid", "o.rootAt %d" % perm[0]]
         ops.append("o.valid")
+        # the object-level and the index-level queries on the tree as built: every node, a partner each
+        for a in rng.sample(range(n), min(n, 3)):
+            b = rng.randrange(n)
+            ops += ["o.qt %d %d" % (a, b), "o.qi %d %d" % (a, b)]
         L = rng.randint(3, 14)
         for _ in range(L):
             r = rng.random()
@@ -456,13 +493,15 @@ def obs_cases(rng, tier):
                 j, k2 = rng.randint(0, 2), rng.randint(0, 2)
                 ops.append(rng.choice(["o.copy %d %d" % (j, k2), "o.clone %d %d" % (j, k2), "o.assign %d %d" % (j, k2)]))
                 ops += ["o.sel %d" % rng.randint(0, 2), "o.qn %d" % a, "o.qt %d %d" % (a, b)]
+            elif r < 0.83:
+                ops.append(rng.choice(["o.qt %d %d", "o.qi %d %d"]) % (a, b))
             elif r < 0.84:
-                ops.append("o.qt %d %d" % (a, b))
+                ops.append("o.setRoot %d" % a)
             elif r < 0.86:
                 ops.append("o.valid")
             else:
                 ops.append("o.qn %d" % a)
-        ops.append("o.valid")
+        ops += ["o.valid", "o.qt %d %d" % (rng.randrange(n), rng.randrange(n)), "o.qi %d %d" % (rng.randrange(n), rng.randrange(n))]
         cases.append(["case obs%d %s" % (i, "obsdir" if rooted else "obsundir")] + ops)
     return cases
 
@@ -473,4 +512,22 @@ def coverage_extra(cases, answers):
         k = c[0].split()[1].rstrip("0123456789")
         kinds[k] = kinds.get(k, 0) + 1
     valid = sum(1 for a in answers for x in a if x.startswith("1 ;"))
-    return {"case_kinds": kinds, "validity_queries_answering_true": valid}
+    # how many of the object-level / index-level tree queries were really answered (the harness answers `notrooted`
+    # without calling on a graph that is not a valid rooted tree), and how many DAG closing edits made a cycle
+    obj = {"o.qt": [0, 0], "o.qi": [0, 0]}
+    cyc = [0, 0]
+    for c, a in zip(cases, answers):
+        ops = c[1:]
+        for i, (o, x) in enumerate(zip(ops, a)):
+            name = o.split()[0]
+            if name in obj:
+                obj[name][1] += 1
+                if not x.startswith("notrooted") and not x.startswith("exc:"):
+                    obj[name][0] += 1
+            if c[0].split()[1].startswith("dagclose") and name == "d.valid" and i > 0 and ops[i - 1].split()[0] in ("d.addSon", "d.addFather") and i >= len(ops) - 8:
+                cyc[1] += 1
+                if x.startswith("0 ;"):
+                    cyc[0] += 1
+    return {"case_kinds": kinds, "validity_queries_answering_true": valid,
+            "object_level_queries_answered_of_asked": {k: "%d/%d" % tuple(v) for k, v in obj.items()},
+            "dag_closing_edits_making_a_cycle_of_tried": "%d/%d" % tuple(cyc)}
